@@ -10,6 +10,7 @@ open TV
 structure St where
   m : Listener.L
   s : ListenerSpec.S
+  accepted : List Nat := []   -- a client only holds connections that Accept returned
 
 def aStr : Listener.AcceptRes → String | .conn i => "conn " ++ toString i | .closedListener => "closed" | .wouldBlock => "block"
 def rStr : Listener.ReadRes → String | .data p => "got " ++ hex p | .eof => "eof" | .wouldBlock => "block" | .noSuchConn => "noconn"
@@ -39,21 +40,25 @@ def comp : Component where
       let created := m'.nextId > st.m.nextId
       let tags := if known then "to-existing " else if created then ("creates-conn " ++ (if st.s.conns.any (fun c => c.remote == rm) then "fresh-after-close " else "")) else
         ("discarded " ++ (if !st.m.accepting then "listener-closed " else if !Listener.admits st.m.filter p then "filtered " else "backlog-full "))
-      ({ m := m', s := st.s.arrive rm p }, line4 "-" (stStr m') "-" tags)
+      ({ st with m := m', s := st.s.arrive rm p }, line4 "-" (stStr m') "-" tags)
     | ["accept"] =>
       let (m', r) := st.m.accept
       let (s', sr) := st.s.accept
-      ({ m := m', s := s' }, line4 (aStr r) (stStr m') (saStr sr) (match r with | .conn _ => "accepted " | .closedListener => "accept-after-close " | .wouldBlock => "accept-empty "))
-    | ["read", id, n] =>
+      let acc := match r with | .conn i => st.accepted ++ [i] | _ => st.accepted
+      ({ m := m', s := s', accepted := acc }, line4 (aStr r) (stStr m') (saStr sr) (match r with | .conn _ => "accepted " | .closedListener => "accept-after-close " | .wouldBlock => "accept-empty "))
+    | ["read", id, _] =>
+      if !st.accepted.contains (nat! id) then (st, line4 "noconn" (stStr st.m) "noconn" "not-accepted ") else
+      let n := f.getD 2 "0"
       let (m', r) := st.m.read (nat! id) (nat! n)
       let (s', sr) := st.s.read (nat! id) (nat! n)
-      ({ m := m', s := s' }, line4 (rStr r) (stStr m') (srStr sr) (match r with | .data _ => "read-data " | .eof => "read-eof " | _ => "read-other "))
+      ({ st with m := m', s := s' }, line4 (rStr r) (stStr m') (srStr sr) (match r with | .data _ => "read-data " | .eof => "read-eof " | _ => "read-other "))
     | ["cclose", id] =>
+      if !st.accepted.contains (nat! id) then (st, line4 "-" (stStr st.m) "-" "not-accepted ") else
       let m' := st.m.connClose (nat! id)
-      ({ m := m', s := st.s.connClose (nat! id) }, line4 "-" (stStr m') "-" "conn-close ")
+      ({ st with m := m', s := st.s.connClose (nat! id) }, line4 "-" (stStr m') "-" "conn-close ")
     | ["lclose"] =>
       let m' := st.m.close
-      ({ m := m', s := st.s.close }, line4 "-" (stStr m') "-" ("listener-close " ++ (if !st.m.acceptQ.isEmpty then "discards-unaccepted " else "")))
+      ({ st with m := m', s := st.s.close }, line4 "-" (stStr m') "-" ("listener-close " ++ (if !st.m.acceptQ.isEmpty then "discards-unaccepted " else "")))
     | _ => (st, "bad-op")
 
 end Driver.Listener
